@@ -475,6 +475,12 @@ def run_refill(ctx, p):
     kind = p['kind']
     buf = np.array(p['good'], dtype=np.float64)
     bad = np.asarray(p['bad'], dtype=np.float64)
+    owner = buf
+    if p.get('frozen') == 'view':        # what is handed over is a read-only window onto a buffer its owner keeps writing to
+        buf = owner.view()
+        buf.flags.writeable = False
+    elif p.get('frozen') == 'thaw':      # a frozen array that its owner thaws, updates and freezes again
+        buf.flags.writeable = False
     sig = dict(api=p['cls'], form=p['form'], defect=p['defect'], history='accepted by %s, then %s' % (
         'the same class' if p['first'] == p['cls'] else 'another class', 'refilled in place' if p['refill'] else 'given again'))
     try:
@@ -484,7 +490,12 @@ def run_refill(ctx, p):
         ctx.ood('ctor.reject')
         return
     if p['refill']:
-        buf[...] = bad
+        if p.get('frozen') == 'thaw':
+            buf.flags.writeable = True
+            buf[...] = bad
+            buf.flags.writeable = False
+        else:
+            owner[...] = bad
     d = dist(kind, buf)
     if d <= BAND:
         ctx.ood('ctor.reject')
@@ -768,7 +779,8 @@ def run(ctx):
         if rng.random() < 0.7:
             other, _ = valid_member(rng, cname)
             bad, defect = corrupt(rng, cname, other, mag=gen.logu(rng, 1e-5, 1.0))
-            drive(RUNNERS, ctx, 'refill', dict(first=cname, cls=cname, kind=cname, form=form, good=good, bad=bad, defect=defect, refill=True))
+            drive(RUNNERS, ctx, 'refill', dict(first=cname, cls=cname, kind=cname, form=form, good=good, bad=bad, defect=defect, refill=True,
+                                               frozen=[None, None, 'view', 'thaw'][rng.integers(4)]))
         else:
             # one 3 x 3 array object: a member of SE(2) handed to SO3 afterwards, or a member of SO(3) handed to SE2
             first, second = [('SE2', 'SO3'), ('SO3', 'SE2')][rng.integers(2)]
